@@ -73,6 +73,16 @@ class NamedIdentity(nnx.Module):
 
 
 @onnx_function
+def fn_shift(x, b):
+    """Binary target: the second positional argument is DATA (a run-time input of the function),
+    even when a call site happens to pass a compile-time constant."""
+    return jnp.tanh(x) + b
+
+
+SHIFT_CONSTS = {"c1": np.array([1.0, 2.0, 3.0, -1.5], np.float32), "c2": np.array([-5.0, 0.5, 7.0, 0.25], np.float32)}
+
+
+@onnx_function
 def fn_takes_det(x, deterministic=True):
     """Plain-function target that accepts a runtime parameter its callers do not forward."""
     return jnp.where(deterministic, x * 2.0, x * 0.5)
